@@ -257,3 +257,11 @@ pub mod names { use super::*;
             && forall|k: int| 0 <= k < i@.len() ==> #[trigger] es.items()[k] == (match i@[k] { PartialValue::Value(x) => expr_of_value(x), PartialValue::Residual(e) => e }),
     }
 { unimplemented!() }
+// ---- a policy as the evaluator sees it: its condition and its slot environment (Policy::{condition, env}: proved in unit linking) ----
+#[verifier::external_body] pub struct Policy { _p: u8 }
+impl Policy {
+    pub uninterp spec fn spec_condition(&self) -> Expr;
+    pub uninterp spec fn spec_env(&self) -> SlotEnv;
+    #[verifier::external_body] pub fn condition(&self) -> (r: Expr) ensures r == self.spec_condition() { unimplemented!() }
+    #[verifier::external_body] pub fn env(&self) -> (r: &SlotEnv) ensures *r == self.spec_env() { unimplemented!() }
+}
